@@ -82,8 +82,9 @@ pub trait GradientTarget<T: Float, B: AutodiffBackend> {
         let pos = position.clone().detach().require_grad();
         let ulogp = self.unnorm_logp(pos.clone());
         // no entry for `pos` in the graph: the log-density is locally constant, its gradient zero
+        // (`mul_scalar(1.0)`: see `HMC::step` -- a log-density built from host data is an untracked leaf)
         let grad_inner = pos
-            .grad(&ulogp.backward())
+            .grad(&ulogp.clone().mul_scalar(1.0).backward())
             .unwrap_or_else(|| pos.clone().inner().zeros_like());
         let grad = Tensor::<B, 1>::from_inner(grad_inner);
         (ulogp, grad)
